@@ -6,18 +6,21 @@ Import ListNotations.
 Section C11.
   Context {F : Type} (N : Num F).
 
-  (* exact arithmetic, nothing pruned (the threshold is below every product): repeated squaring with the remainder
-     recursion yields, up to order, exactly the n-fold expansion -- one entry per arrangement, mass = sum of the
-     isotopes' masses, probability = product of their abundances *)
-  Theorem C11_pow_is_expansion : OField N -> forall d n thr,
-    (0 <= n < 2 ^ 31)%Z -> (forall x, ltb N x thr = false) ->
-    Permutation (convolve_pow N 64 d n thr) (naive_pow N d (Z.to_nat n)).
-  Proof. exact (pow_expansion N). Qed.
+  (* exact arithmetic, threshold 0 (or below): repeated squaring with the remainder recursion yields, up to order,
+     exactly the full expansion -- one entry per arrangement, mass = sum of the isotopes' masses, probability =
+     product of their abundances.  (A first formulation with "nothing is ever pruned" as hypothesis was vacuous:
+     proofs/ConvProofs.v shows that hypothesis unsatisfiable in an ordered field.) *)
+  Theorem C11_threshold_zero : OField N -> forall c thr,
+    c <> [] -> (forall ec, In ec c -> (0 <= snd ec < 2 ^ 31)%Z) -> abundances_ok N c ->
+    leb N thr (zero N) = true -> Permutation (conv_all N c thr) (naive_all N c).
+  Proof. exact (all_expansion_nonpos N). Qed.
 
-  Theorem C11_all_is_expansion : OField N -> forall c thr,
-    c <> [] -> (forall ec, In ec c -> (0 <= snd ec < 2 ^ 31)%Z) -> (forall x, ltb N x thr = false) ->
-    Permutation (conv_all N c thr) (naive_all N c).
-  Proof. exact (all_expansion N). Qed.
+  (* any threshold: the entries at or above it are, with multiplicities, exactly those of the full expansion *)
+  Theorem C11_multiset : OField N -> forall c thr,
+    c <> [] -> (forall ec, In ec c -> (0 <= snd ec < 2 ^ 31)%Z) -> abundances_ok N c ->
+    Permutation (filter (fun x => leb N thr (snd x)) (conv_all N c thr))
+                (filter (fun x => leb N thr (snd x)) (naive_all N c)).
+  Proof. exact (all_multiset N). Qed.
 
   (* with a threshold t: an arrangement whose probability is at least t is never pruned (abundances lie in (0,1], so
      every partial product is at least the full product) *)
@@ -38,5 +41,5 @@ Section C11.
   Proof. exact (empty_result N). Qed.
 End C11.
 
-Print Assumptions C11_pow_is_expansion. Print Assumptions C11_all_is_expansion. Print Assumptions C11_survivors.
+Print Assumptions C11_threshold_zero. Print Assumptions C11_multiset. Print Assumptions C11_survivors.
 Print Assumptions C11_no_junk. Print Assumptions C11_tail.
